@@ -176,6 +176,23 @@ def gen_cases(chk):
         if nm is None:
             continue
         cases.append(Case(nm[1], mem=pk, mbuff=mb, helpers=[(1, 'mix'), (2, 'clobber')], budget=200, fam='near-miss:' + nm[0]))
+    # every ALU operation (32 / 64 bits, immediate / register) on boundary operands: no operand value may make an arm panic
+    AV = [0, 1, 2, 31, 32, 63, 64, 0x7fffffff, 0x80000000, 0xffffffff, 0x100000000, 0x1234567880000000, 0xffffffff80000000,
+          2 ** 63 - 1, 2 ** 63, 2 ** 64 - 1]
+    IMM = [0, 1, -1, 31, 32, 63, 64, 0x7fffffff, -0x80000000]
+    for w in (32, 64):
+        for name in B.ALU_OPS:
+            for a in AV:
+                if name == 'neg':
+                    cases.append(Case(B.lddw(1, a) + B.alu('neg', 1, w=w) + B.movr(0, 1) + B.EXIT, fam='alu-boundary'))
+                    continue
+                bs = AV if thorough else [rng.choice(AV) for _ in range(3)] + [0x80000000]
+                for b in bs:
+                    cases.append(Case(B.lddw(1, a) + B.lddw(2, b) + B.alu(name, 1, src=2, w=w) + B.movr(0, 1) + B.EXIT, fam='alu-boundary'))
+                for imm in (IMM if thorough else [rng.choice(IMM) for _ in range(2)]):
+                    if name in ('div', 'mod') and imm == 0 and False:
+                        continue
+                    cases.append(Case(B.lddw(1, a) + B.alu(name, 1, imm=imm, w=w) + B.movr(0, 1) + B.EXIT, fam='alu-boundary'))
     # directed: the arithmetic that used to overflow
     cases.append(Case(B.lddw(1, 2 ** 63) + B.alu('neg', 1) + B.movr(0, 1) + B.EXIT, fam='neg64-min'))
     cases.append(Case(B.lddw(4, 2 ** 64 - 1) + B.ldind('b', 4, 1) + B.EXIT, mem=pk, fam='ldind-wrap'))
